@@ -237,6 +237,10 @@ def oracle_splitter(case):
 
     atoms = case["atoms"]
     fmt_in, fmt_out = case["format_in"], case["format_out"]
+    if case.get("running_ids") and fmt_in != "PDB":
+        # atom ids that run on from model to model (60000 per model): later models exceed the PDB serial width, the
+        # first ones do not - every model that fits must still come out unchanged
+        atoms = [dict(a, serial=a["serial"] + 60000 * (a["model"] - 1)) for a in atoms]
     os.makedirs(WORK_DIR, exist_ok=True)
     base = os.path.join(WORK_DIR, f"c09split_{os.getpid()}")
     shutil.rmtree(base, ignore_errors=True)
@@ -264,6 +268,8 @@ def oracle_splitter(case):
         for m in models:
             path = os.path.join(outdir, f"input_model_{m}." + ("pdb" if eff == "PDB" else "cif"))
             want = [a for a in atoms if a["model"] == m]
+            if eff == "PDB" and any(a["serial"] > 99999 for a in want):
+                continue  # does not fit PDB widths: renumbering is C10's subject
             if not os.path.exists(path):
                 out.append(D("C09:splitter:model-file-missing", f"no output for model {m} ({fmt_in} -> {fmt_out}); stderr: {err.getvalue()[-200:]}"))
                 continue
@@ -338,10 +344,10 @@ def run_shard(spec) -> ShardResult:
         from hypothesis import strategies as st
 
         strat = st.fixed_dictionaries({"atoms": atomtab.st_tables(max_residues=3, max_atoms=4), "null": st.sampled_from(["?", "."]),
-                                       "format_in": st.sampled_from(["PDB", "mmCIF"]),
+                                       "format_in": st.sampled_from(["PDB", "mmCIF"]), "running_ids": st.booleans(),
                                        "format_out": st.sampled_from(["keep", "PDB", "mmCIF", "pdb", "mmcif"])})
         run_hypothesis(PROP_ID, strat, oracle_splitter, seed=spec["seed"], max_examples=spec["examples"], result=res,
-                       classify=lambda c: (len({a["model"] for a in c["atoms"]}) >= 2, ["splitter", f"{c['format_in']}->{c['format_out'].lower()}"]),
+                       classify=lambda c: (len({a["model"] for a in c["atoms"]}) >= 2, ["splitter", f"{c['format_in']}->{c['format_out'].lower()}"] + (["splitter-running-ids"] if c.get("running_ids") and c["format_in"] != "PDB" else [])),
                        sample_cap=1)
         res.exhaustive = False
         return res
